@@ -111,8 +111,13 @@ def unbiased_case(p):
     est = np.zeros((S, len(pairs)))
     for s in range(S):
         ka = pykoop.RandomFourierKernelApprox(p['kernel'], n_components=D, shape=p['shape'], method=p['method'],
-                                              random_state=seed_obj(p['seedtype'], 5000 + 7 * s + p['rs'])).fit(pts)
-        Z = ka.transform(pts)
+                                              random_state=seed_obj(p['seedtype'], 5000 + 7 * s + p['rs']))
+        if p.get('via_lifting_fn'):
+            # the same approximation used as the sub-estimator of a KernelApproxLiftingFn: its features are the appended block
+            lf = pykoop.KernelApproxLiftingFn(kernel_approx=ka).fit(pts, n_inputs=0, episode_feature=False)
+            Z = lf.transform(pts)[:, nf:]
+        else:
+            Z = ka.fit(pts).transform(pts)
         for j, (a, b) in enumerate(pairs):
             est[s, j] = Z[a] @ Z[b]
     true = np.array([kernel(p['kernel'], p['shape'], pts[a], pts[b]) for a, b in pairs])
@@ -164,7 +169,8 @@ def gen_params(rng, tier):
                 for nf, D, shape, box in ((1, 50, 1.0, 2.0), (2, 200, 0.5, 1.5), (3, 100, 2.0, 1.0)) if tier == 'quick' else \
                         ((1, 50, 1.0, 2.0), (2, 200, 0.5, 1.5), (3, 100, 2.0, 1.0), (4, 800, 1.0, 1.0), (2, 50, 3.0, 2.0)):
                     out.append(dict(test='unbiased', kernel=k, method=m, seedtype=st, nf=nf, D=D, shape=shape, box=box,
-                                    n_seeds=S, rs=int(rng.integers(0, 1000)), seed=int(rng.integers(1 << 30))))
+                                    n_seeds=S, rs=int(rng.integers(0, 1000)), seed=int(rng.integers(1 << 30)),
+                                    via_lifting_fn=bool(nf == 2)))
     return out
 
 
